@@ -55,8 +55,8 @@ CHECKS = {
   "Trusted: SHA-256, rusty-leveldb. Versions >= 2^31 are used only on coins without AuxPoW (the statement is unambiguous there).", "6/C12"),
  "C13": ("model_checking", "e3b",
   "stateless DFS over ALL item-level schedules of the parallel regions, executed on the repository's own code with the crate rayon replaced by a controlled-scheduler model (baton scheduler on real threads, recorded choice points, no partial-order reduction); plus BFS over all histories (depth 3) of runs sharing dump folder and data directory on the real binary",
-  "Every schedule of worlds 1x4, 2x2, 3x1 (txs x outputs; non-coinbase txs of equal size and value so that tie-dependent figures show) and a two-block world, on bitcoin and litecoin (15 520 complete in-process runs in quick; 2x3, 4x1 and 3x2 = 277 200 in thorough, 2.6 million runs), through csvdump / simplestats / opreturn (and unspent / balances where affordable): each observation must equal schedule 0's; measured schedule counts equal the closed-form number of linear extensions. All 258 run sequences x 3 initial dump-folder states x {1,16} threads on the real binary: results equal fresh-folder results, other files untouched, blk/xor files and index content unchanged. Labelled sampling: a free-running real-rayon pass (1..64 threads, blocks of hundreds of txs, compared with the single-thread run) and, in thorough, Miri's data-race detector on the decode path.",
-  "The scheduler model over-approximates rayon's documented ordering freedom at item granularity; interleavings inside one closure are not explored (closures hold no synchronisation; safe Rust excludes data races). A canary closure must show all 6 orders or the run is a machinery error. Whether the common result is right is left to C01/C07/C08/C15/C16.", "6/C13"),
+  "Every schedule of worlds 1x4, 2x2, 3x1 (txs x outputs; non-coinbase txs of equal size and value so that tie-dependent figures show) and a two-block world, on bitcoin and litecoin (15 520 complete in-process runs in quick; 2x3, 4x1 and 3x2 = 277 200 in thorough, 2.6 million runs), through csvdump / simplestats / opreturn (and unspent / balances where affordable): each observation must equal schedule 0's; measured schedule counts equal the closed-form number of linear extensions. Worker-pool mode of the same scheduler model (2 worker threads, thread-local state persists per worker, a waiting worker runs other tasks on its own stack): all order x worker-assignment schedules (3 994 in quick) of tiny fork-coin worlds in which one hash160 is used as P2PKH, P2SH and P2PK. All 258 run sequences x 3 initial dump-folder states x {1,16} threads on the real binary: results equal fresh-folder results, other files untouched, blk/xor files and index content unchanged. Labelled sampling: a free-running real-rayon pass (1..64 threads, blocks of hundreds of txs, compared with the single-thread run) and, in thorough, Miri's data-race detector on the decode path.",
+  "The scheduler model over-approximates rayon's documented ordering freedom at item granularity; interleavings inside one closure are not explored (closures hold no synchronisation; safe Rust excludes data races). Canaries (an order-dependent for_each must show all 6 orders; a thread-local counter must show several outcomes in pool mode) guard against a vacuous explorer. Whether the common result is right is left to C01/C07/C08/C15/C16.", "6/C13"),
  "C14": ("exploration", "e2",
   "totality sweep: every script of the C05/C06 families plus length/encoding extremes evaluated in-process under catch_unwind with overflow checks for all 8 coins; ~300 adversarial strings injected into scriptPubKey / scriptSig / witness items of a host chain and run through all callbacks of the real binary with masked comparison against the model",
   "4.3 million (thorough 12.7 million) in-process evaluations (no panic allowed) and 864 whole-program worlds (8 coins x 3 fields x callbacks x batches of 50 strings, bisected on failure): exit 0, no panic text, and all rows/figures outside the injected cell equal the model (per-type lines are never judged here). Thorough repeats the whole-program part on the release-profile binary.",
